@@ -9,6 +9,7 @@ from harness import common as C
 
 THEOREMS = 'Properties/C02.v'
 KNOWN_EIGH = 'C02/eigh-mode-sqrt-eps-floor'
+KNOWN_PLAIN = 'C02/plain-mode-sqrt-range'
 CLAIM = dict(
     text='Coq theorems (Properties/C02.v), at the reals, for every d, mode sizes and rank profile. '
          '(1) Rank rule q = max(1, min(int r, len - dlen)) of matrix_svd / matrix_skeleton (C02_rank_select_bounds, _tail, '
@@ -57,10 +58,12 @@ CLAIM = dict(
          '2-5 times interleaved with orthogonalize / add / add_many: bit-identical results, arguments bit-identical '
          'afterwards); exact power-of-two rescalings of one core or of the whole tensor (same ranks, rescaled result, '
          'bound) up to 2^+-1000 with use_stab=True and 2^+-450 without; e = 0 exactly; thresholds hit exactly / 2^-40 '
-         'above / below at tensor level (d = 2, integer spectrum, all quantities exact). KEPT OUT and reported to the lead: '
-         'use_stab=False with |log2 scale| > ~500, where the squares the code forms (norm of the last core, Gram matrix, '
-         's**2) overflow / underflow - the property text says any scale; stabilisation is the documented remedy. Subnormal '
-         'inputs are not covered (reduced input precision).',
+         'above / below at tensor level (d = 2, integer spectrum, all quantities exact). Known finding C02/plain-mode-sqrt-range: with use_stab=False '
+         'the squares the code forms (norm of the last core, Gram matrix, s**2) leave the double range for |log2 scale| beyond '
+         '~500 although input and result are representable (the property text says any scale); four fixed regression inputs '
+         '(2x2, k = -600 / +520, both modes) report it on every run, and search() tags a plain-mode scale failure with that key '
+         'only when log2|Y| >= 510 or <= -457 and truncate(use_stab=True) meets the bound on the same input; every other '
+         'scale failure is a violation. Subnormal inputs are not covered (reduced input precision).',
     technique='Coq proof (Pythagoras over the sweep by induction on the chain length; Frobenius algebra over any commutative '
               'ring; rank rule by list induction) + float model/implementation correspondence with replayed oracles + dense '
               'SVD reference search')
@@ -1185,34 +1188,61 @@ def _check_history(tn, inp):
 
 def _check_scale(tn, inp):
     """exact power-of-two rescaling of one core / of the whole tensor: same ranks, result rescaled by the same factor,
-    and the error bound relative to the (rescaled) norm"""
-    fails = []
+    and the error bound relative to the (rescaled) norm.  Failures of the plain mode (use_stab=False) are tagged with the
+    known finding C02/plain-mode-sqrt-range exactly when a square the code forms leaves the normal double range
+    (log2 |Y| >= 510 or <= -457) while truncate(use_stab=True) on the same input meets the bound."""
     Y = _unjtt(inp['Y'])
     e = float.fromhex(inp['e'])
     r, us, ie, k, where = inp['r'], inp['use_stab'], inp['is_eigh'], inp['k'], inp['where']
     Ys = _pow2_scaled(Y, k, where)
-    try:
-        with np.errstate(all='ignore'):
-            Zb = tn.truncate([G.copy() for G in Y], e, r, True, us, ie)
-            Zs = tn.truncate([G.copy() for G in Ys], e, r, True, us, ie)
-    except Exception as ex:  # noqa
-        return [('scale 2^%d: raises' % k, repr(ex)[:150], 'a tensor')]
-    if not all(np.all(np.isfinite(G)) for G in Zs):
-        return [('scale 2^%d: non-finite core' % k, 'nan / inf', 'finite')]
-    if _ranks(Zs) != _ranks(Zb):
-        fails.append(('scale 2^%d: ranks change' % k, _ranks(Zs), _ranks(Zb)))
     T = _full(Y)
     nrm = _fnorm(T)
+    fails = []
+
+    def tag():
+        if us or nrm == 0:
+            return None
+        L = math.log2(nrm) + k
+        if not (L >= 510 or L <= -457):
+            return None
+        try:
+            with np.errstate(all='ignore'):
+                Zt = tn.truncate([G.copy() for G in Ys], e, r, True, True, ie)
+                Zt0 = tn.truncate([G.copy() for G in Ys], e, 1.E+12, True, True, ie)
+            if not all(np.all(np.isfinite(G)) for G in Zt):
+                return None
+            es = _fnorm(T - _full_shift(Zt, k))
+        except Exception:  # noqa
+            return None
+        if _ranks(Zt) == _ranks(Zt0) and not (es <= math.sqrt((e * nrm) ** 2 * (1 + 1e-6) + 1e-24 * nrm * nrm)
+                                              or (ie and es - e * nrm <= 1e-6 * nrm)):
+            return None
+        return KNOWN_PLAIN
+    with np.errstate(all='ignore'):
+        Zb = tn.truncate([G.copy() for G in Y], e, r, True, us, ie)
+    try:
+        with np.errstate(all='ignore'):
+            Zs = tn.truncate([G.copy() for G in Ys], e, r, True, us, ie)
+    except Exception as ex:  # noqa
+        return [('scale 2^%d: raises' % k, repr(ex)[:150], 'a tensor', tag())]
+    if not all(np.all(np.isfinite(G)) for G in Zs):
+        return [('scale 2^%d: non-finite core' % k, 'nan / inf', 'finite', tag())]
+    if _ranks(Zs) != _ranks(Zb):
+        fails.append(('scale 2^%d: ranks change' % k, _ranks(Zs), _ranks(Zb), tag()))
     Ts = _full_shift(Zs, k)
     err = _fnorm(T - Ts)
     if _ranks(Zs) == _ranks(Zb) and not _fnorm(_full(Zb) - Ts) <= 1e-9 * max(nrm, 1e-300):
-        fails.append(('scale 2^%d: result is not the rescaled result' % k, _fnorm(_full(Zb) - Ts), 1e-9 * nrm))
-    with np.errstate(all='ignore'):
-        Z0 = Zs if r >= 1e11 else tn.truncate([G.copy() for G in Ys], e, 1.E+12, True, us, ie)
-    if _ranks(Z0) == _ranks(Zs):
+        fails.append(('scale 2^%d: result is not the rescaled result' % k, _fnorm(_full(Zb) - Ts), 1e-9 * nrm, tag()))
+    try:
+        with np.errstate(all='ignore'):
+            Z0 = Zs if r >= 1e11 else tn.truncate([G.copy() for G in Ys], e, 1.E+12, True, us, ie)
+        cap_free = _ranks(Z0) == _ranks(Zs)
+    except Exception:  # noqa
+        cap_free = False
+    if cap_free:
         bound = math.sqrt((e * nrm) ** 2 * (1 + 1e-6) + 1e-24 * nrm * nrm)
         if not err <= bound and not (ie and err - e * nrm <= 1e-6 * nrm):
-            fails.append(('scale 2^%d: error <= e*norm' % k, err, bound))
+            fails.append(('scale 2^%d: error <= e*norm' % k, err, bound, tag()))
     return fails
 
 
@@ -1253,6 +1283,12 @@ def _check_tie(tn, inp):
     return fails
 
 
+# fixed regression cases of the known finding C02/plain-mode-sqrt-range: d = 2, identity times [[1,2],[3,4]] * 2^k
+_Y22 = [[[1, 2, 2], [float(x).hex() for x in (1, 0, 0, 1)]], [[2, 2, 1], [float(x).hex() for x in (1, 2, 3, 4)]]]
+REGRESSION_PLAIN = [dict(kind='scale', Y=_Y22, e=float(1e-6).hex(), r=1.E+12, use_stab=False, is_eigh=ie_, k=k_, where=1)
+                    for k_ in (-600, 520) for ie_ in (True, False)]
+
+
 def _crosscut_inputs(rng, nprng, deep):
     """payloads of the four cross-cutting families"""
     out = []
@@ -1288,7 +1324,7 @@ def _crosscut_inputs(rng, nprng, deep):
     for _ in range(24 if deep else 8):
         Y, _f = _rand_tt(rng, nprng, d=rng.choice([2, 3, 4]), family=rng.choice(['decay', 'generic', 'cluster', 'n1']))
         us = rng.random() < 0.6
-        k = rng.choice([1000, -1000, 700, -700, 520, -600] if us else [450, -450, 300, -300, 100, -100])
+        k = rng.choice([1000, -1000, 700, -700, 520, -600] if us else [450, -450, 300, -300, 100, -100, 600, -600, 1000, -1000])
         out.append(dict(kind='scale', Y=_jtt(Y), e=float(rng.choice([0.3, 0.05, 1e-2, 1e-3, 1e-5])).hex(),
                         r=rng.choice([1.E+12, 1.E+12, 2]), use_stab=us, is_eigh=rng.random() < 0.5, k=k,
                         where=rng.choice(['all', 0, len(Y) - 1, rng.randrange(len(Y))])))
@@ -1363,6 +1399,8 @@ def search(R, ctx, deep, hints):
         return fs
 
     run(REGRESSION_EIGH)
+    for inp in REGRESSION_PLAIN:
+        run(inp)
     def t_inp(Y, e, r, use_stab, is_eigh):
         return dict(kind='truncate', Y=_jtt(Y), e=float(e).hex(), r=r, use_stab=use_stab, is_eigh=is_eigh)
     # hints from the correspondence first
@@ -1442,9 +1480,14 @@ def search(R, ctx, deep, hints):
                               '(shape, caps, error <= e*norm when the cap does not bind, Eckart-Young clauses, per-step bound)',
                          evaluations=nev, truncate_calls_checked=n_tr, crosscut_cases=n_cc, failures=len(fails),
                          known_finding_hits=len(known), deep=deep))
+    kn, seen = [], {}
+    for f in known:
+        seen[f['finding_key']] = seen.get(f['finding_key'], 0) + 1
+        if seen[f['finding_key']] <= 2:
+            kn.append(f)
     if fails:
-        return fails + known[:3]
-    return [] if broken else known[:3]
+        return fails + kn
+    return [] if broken else kn
 
 
 def replay(data):
